@@ -284,7 +284,8 @@ CONFIGS = {
     "01_N7": ({"N": 7, "MaxW": 1, "AllowSwap": False, "AllowSetW": False, "AllowScale": False}, ("thorough",)),
     "w2_N4": ({"N": 4, "MaxW": 2, "AllowSwap": False, "AllowSetW": True, "AllowScale": True}, ("quick", "thorough")),
     "w3_N4": ({"N": 4, "MaxW": 3, "AllowSwap": False, "AllowSetW": True, "AllowScale": True}, ("thorough",)),
-    "w2_N5": ({"N": 5, "MaxW": 2, "AllowSwap": False, "AllowSetW": True, "AllowScale": False}, ("thorough",)),
+    # (N = 5 with every cell weighted independently does not finish in an hour; the rows of a five-ensemble staircase are scaled as a whole instead)
+    "sc_N5": ({"N": 5, "MaxW": 3, "AllowSwap": False, "AllowSetW": False, "AllowScale": True}, ("thorough",)),
     "sc_N4": ({"N": 4, "MaxW": 4, "AllowSwap": True, "AllowSetW": False, "AllowScale": True}, ("quick", "thorough")),
 }
 
